@@ -26,10 +26,11 @@ PROPS["C14"] = {
 PROPS["C18"] = {
     "level": "proof",
     "technique": "Lean 4 proof (bit round trip lemmas instantiated on the ASC and ADTS syntaxes; sync search by induction on the junk) + complete-grid correspondence",
-    "level_text": "Model lean/Mp4ff/Model/Aac.lean transcribes AudioSpecificConfig encode/decode and ADTS encode/decode (188-iteration sync search) on the proved bit writer/reader; theorems in Props/C18.lean cover the whole domain by proof, not enumeration; the tie is the complete finite grid run against the Go code on every check (all 13x8x8185 ADTS headers, all junk lengths 0..187, 77 frequencies x 16 channels x 3 object types), plus the AAC sample entry path through the mp4 package (oracle only).",
-    "level_note": "Trusted: Lean kernel, allowed axioms, hand transcription validated by correspondence. esds/descriptor framing is exercised through the real code only.",
-    "trusted": ["Model/Aac.lean hand transcription of aac/aac.go, aac/adts.go"],
-    "unmodelled": ["mp4/esds.go + mp4/descriptors.go framing (exercised by the direct oracle through SetAACDescriptor -> encode -> decode)"],
+    "level_text": "Model lean/Mp4ff/Model/Aac.lean transcribes AudioSpecificConfig encode/decode and ADTS encode/decode (188-iteration sync search) on the proved bit writer/reader; theorems in Props/C18.lean cover the whole domain by proof, not enumeration; the tie is the complete finite grid run against the Go code on every check (all 13x8x8185 ADTS headers, all junk lengths 0..187, 77 frequencies x 16 channels x 3 object types), plus, in Props/C18b.lean on Model/Esds.lean (mp4/esds.go + mp4/descriptors.go: ES / DecoderConfig / DecSpecificInfo / SLConfig / raw descriptors, tag + variable-length size coding incl. the padded 0x80 forms, what the decoder accepts vs. what the encoder writes, CreateEsdsBox): decode(encode e) = e for every well-formed descriptor tree, bytes written = Size(), encode(decode bs) = bs up to the dropped trailing bytes, the decoder is total with a decoded tree bounded by the input, and the end-to-end clause: for every configuration in AscDom the esds created from its AudioSpecificConfig, encoded and decoded, carries bytes that decode back to that configuration. Tie: ops esds.create / esds.dec / esds.rt on boxes created from the generated configurations, the repository's esds boxes, random descriptor trees in every size-field form and their mutations (accept/reject, error class, re-encoding compared); the AAC sample entry path through the mp4 package is also checked by the direct oracle.",
+    "level_note": "Trusted: Lean kernel, allowed axioms, hand transcription validated by correspondence.",
+    "trusted": ["Model/Aac.lean hand transcription of aac/aac.go, aac/adts.go", "Model/Esds.lean hand transcription of mp4/esds.go, mp4/descriptors.go (sticky-error slice reader, uint64/byte wraps of the size coding, signed int(size) arithmetic)"],
+    "extra_props": ["C18b"],
+    "unmodelled": ["mp4/audiosamplentry.go (the mp4a box around the esds) and TrakBox.SetAACDescriptor plumbing: direct oracle only", "CreateEsdsBox with a decoder configuration above 104 bytes (one-byte size fields wrap; outside the AudioSpecificConfig domain, whose encodings are at most 10 bytes: theorem asc_length)"],
     "partial": [],
     "assumptions": [],
 }
